@@ -158,6 +158,12 @@ pub fn query_reply_queue(
 }
 
 pub fn query_unstake_requests(deps: Deps, user: String) -> StdResult<Vec<UnstakeRequest>> {
+    // Index prefixes support at most 0xFFFF bytes; no account has such an
+    // address, so there is nothing to list.
+    if user.len() > u16::MAX as usize {
+        return Ok(vec![]);
+    }
+
     let unstaking_requests = unstake_requests()
         .idx
         .by_user
